@@ -284,14 +284,20 @@ def order_zones(prop, tier, seed):
                                   'hourly grids of 30 steps, 3 orders', 30 if tier == 'quick' else 90))
 
 
-@provider('C08')
+@provider('C08', 'C19')
 def window_zones(prop, tier, seed):
     rng = random.Random(seed + 61)
     cases = [dict(tz=tz, start=st, hours=48, window=w, given=g, py=rng.random() < .5)
              for tz in ('CET', 'UTC', 'US/Eastern') for st in ('2021-03-27', '2021-07-01') for w in ((3, 20), (10, 40)) for g in ('naive', 'same', 'UTC', 'Asia/Tokyo')]
     rng.shuffle(cases)
-    return dict(bounded=run_cases(sc.check_window_zones, cases[:_n(tier, 16, 48)], 'asset windows given as naive dates, as zone-aware instants in the grid zone and in other zones (UTC, Asia/Tokyo) on CET / UTC / US-Eastern grids incl. a DST switch: dispatched exactly in the steps of [start, end)',
-                                  '48 h hourly grids', 30 if tier == 'quick' else 90))
+    # window edges between two grid points (also on a naive grid)
+    cases = [dict(tz=None, start='2021-01-01', hours=24, window=(3, 9), given='naive', py=False, offgrid=True),
+             dict(tz='CET', start='2021-07-01', hours=24, window=(0, 5), given='same', py=True, offgrid=True),
+             dict(tz='CET', start='2021-03-27', hours=48, window=(20, 30), given='UTC', py=False, offgrid=True)] + cases
+    b = run_cases(sc.check_window_zones, cases[:_n(tier, 16, 48)] if prop == 'C08' else cases[:6], 'asset windows given as naive dates, as zone-aware instants in the grid zone and in other zones (UTC, Asia/Tokyo) on CET / UTC / US-Eastern grids incl. a DST switch, window edges on and between grid points: dispatched exactly in the steps whose point lies in [start, end)',
+                  '24-48 h hourly grids', 30 if tier == 'quick' else 90)
+    b['failures'] = [f for f in b['failures'] if f['name'].startswith(prop) or f.get('error')]
+    return dict(bounded=b)
 
 
 @provider('C08')
